@@ -31,17 +31,16 @@ def _level_part_formats(ctx):
     for name in ('level_part', 'level_location'):
         fn = ctx.fn(PATH + ':' + name)
         fmt, passthrough = None, False
-        for st in fn.walk():
-            if isinstance(st, ast.If) and contains(st.test, lambda x: is_call(x, 'isinstance')):
-                for r in [x for x in ast.walk(st) if isinstance(x, ast.Return)]:
-                    in_body = any(inside(r, b) for b in st.body)
-                    v = r.value
-                    last = v.args[-1] if is_call(v, 'os.path.join') else v
-                    if in_body:
-                        passthrough = isinstance(last, ast.Name) and last.id == 'level'
-                    else:
-                        if isinstance(last, ast.BinOp) and isinstance(last.op, ast.Mod) and isinstance(last.left, ast.Constant):
-                            fmt = last.left.value
+        g = fn.cfg
+        isstr = lambda at: at.op is None and is_call(at.expr, 'isinstance') and len(at.expr.args) == 2 and unparse(at.expr.args[1]) in ('str', 'basestring', 'string_type')
+        for r in g.find_stmts(lambda s_: isinstance(s_, ast.Return) and s_.value is not None):
+            v = g.stmt[r].value
+            last = v.args[-1] if is_call(v, 'os.path.join') else v
+            if g.guarded(r, isstr, True):
+                passthrough = isinstance(last, ast.Name) and last.id == fn.params[0]
+            elif g.guarded(r, isstr, False):
+                if isinstance(last, ast.BinOp) and isinstance(last.op, ast.Mod) and isinstance(last.left, ast.Constant):
+                    fmt = last.left.value
         if name == 'level_location' and fmt is None:
             # delegation: level_location(level, ..) = join(.., level_part(level))
             rets = returns_of(fn.node)
@@ -78,8 +77,11 @@ def _level_fn_shape(ctx, fn, lp, depth=3):
     if fn.name == 'level_location':
         passthrough, fmt = lp['level_location']
         return ('FMT:' + fmt if fmt else '?'), True
-    if len(rets) == 1 and is_call(rets[0].value, 'level_location') and depth > 0:
-        c = rets[0].value
+    from ..flow import Canon
+    cfl = Canon(fn)
+    rv = cfl.expr(rets[0].value) if len(rets) == 1 and rets[0].value is not None else None       # closed form: locals followed
+    if rv is not None and is_call(rv, 'level_location') and depth > 0:
+        c = rv
         arg = c.args[0]
         inner = _shape(arg, lp, {lv})
         passthrough, fmt = lp['level_location']
